@@ -4,11 +4,13 @@ import (
 	"bytes"
 	"encoding/json"
 	"fmt"
+	"io"
 	"os"
 	"os/exec"
 	"path/filepath"
 	"regexp"
 	"strings"
+	"syscall"
 
 	spg "go.1password.io/spg"
 
@@ -22,7 +24,7 @@ import (
 
 func c09Counts(tier string) (batches, per, strace int) {
 	if tier == "thorough" {
-		return 2000, 5, 200
+		return 6000, 5, 400
 	}
 	return 200, 4, 12
 }
@@ -184,6 +186,15 @@ func c09Sample(r *gen.R) *c09Gen {
 	return g
 }
 
+var c09Errors = []error{tape.ErrInjected, syscall.EAGAIN, io.ErrUnexpectedEOF, syscall.EINTR, io.EOF, tape.TempError{Msg: "resource temporarily unavailable"}, os.ErrDeadlineExceeded}
+
+func btoi(b bool) int {
+	if b {
+		return 1
+	}
+	return 0
+}
+
 func c09Case(c *Ctx) {
 	batches, per, _ := c09Counts(c.Tier)
 	if c.Case >= batches {
@@ -271,6 +282,8 @@ func c09Case(c *Ctx) {
 				for _, sticky := range []bool{false, true} {
 					tf := g.tape()
 					tf.FaultAt, tf.FaultBytes, tf.FaultStick = k, j, sticky
+					// the kind of error varies with the fault point: plain, EOF-like, and errors that call themselves temporary
+					tf.FaultErr = c09Errors[(k+2*j+btoi(sticky))%len(c09Errors)]
 					var of GenOut
 					tripped := false
 					func() {
@@ -290,7 +303,8 @@ func c09Case(c *Ctx) {
 					}
 					c.Count("fault_points_hit", 1)
 					c.Distinct("nontrivial", fmt.Sprintf("%s|%v|%d|%d|%v", g.desc(), g.Script[:4], k, j, sticky))
-					fdet := map[string]interface{}{"generation": g.desc(), "script": g.Script, "fault_at_read": k, "bytes_delivered": j, "sticky": sticky, "reads_after_fault": tf.ReadsAfterFault}
+					fdet := map[string]interface{}{"generation": g.desc(), "script": g.Script, "fault_at_read": k, "bytes_delivered": j, "sticky": sticky, "reads_after_fault": tf.ReadsAfterFault, "error_returned_by_source": fmt.Sprintf("%T: %v", tf.FaultErr, tf.FaultErr)}
+					c.Distinct("error_kinds", fmt.Sprintf("%T%v", tf.FaultErr, tf.FaultErr))
 					switch {
 					case of.Pw != nil:
 						c.Violate("password-after-source-failure", fmt.Sprintf("%s: read %d of %d delivered %d bytes and an error, yet Generate returned password %q", g.desc(), k, t0.Reads, j, of.Pw.String()), fdet)
